@@ -211,20 +211,24 @@ func runC10(c *Ctx) error {
 			continue
 		}
 		region, err := A.IP.Prefix(m.RegionPrefixBits)
-		if err != nil {
+		if err != nil || m.RegionPrefixBits != 16 {
 			continue
 		}
-		ctx, cancel := context.WithTimeout(context.Background(), 40*time.Second)
+		// the country lies in the lower half of its region; C comes from the upper half: outside the
+		// country and above every address in it
+		cb := mk.Prefix.Addr().As16()
+		if cb[2]&0x80 != 0 {
+			continue
+		}
+		ub := region.Addr().As16()
+		ub[2] |= 0x80
+		upper := netip.PrefixFrom(netip.AddrFrom16(ub), 17)
+		ctx, cancel := context.WithTimeout(context.Background(), 90*time.Second)
 		B, _, errB := m.GenerateRoutableAddress(ctx, []netip.Prefix{mk.Prefix}, nil, 0)
 		var C *m.Address
-		for k := 0; k < 6 && errB == nil && B != nil; k++ {
-			x, _, err := m.GenerateRoutableAddress(ctx, []netip.Prefix{region}, []netip.Prefix{mk.Prefix}, 0)
-			if err != nil || x == nil {
-				break
-			}
-			if x.IP.Compare(B.IP) > 0 {
+		if errB == nil && B != nil {
+			if x, _, err := m.GenerateRoutableAddress(ctx, []netip.Prefix{upper}, nil, 0); err == nil && x != nil && x.IP.Compare(B.IP) > 0 && !mk.Prefix.Contains(x.IP) {
 				C = x
-				break
 			}
 		}
 		cancel()
@@ -233,6 +237,10 @@ func runC10(c *Ctx) error {
 			c.Count("identity:nested-routing-prefixes")
 		}
 		break
+	}
+	if nested == nil {
+		c.Count("identity:nested-routing-prefixes-unavailable")
+		c.Note("no router triple with nested routing prefixes could be generated in time: that mesh runs with ordinary identities")
 	}
 
 	// ---------- (a) converged meshes ----------
